@@ -182,7 +182,10 @@ class DebugInfo:
                                 end_offset)
             else:
                 # there should have been an empty block marker inside.
-                for addr in self.empty_blocks:
+                # The marker of an empty block that ends right where
+                # this one starts has the same address as our start:
+                # ours is the last one in the range.
+                for addr in reversed(self.empty_blocks):
                     if start_offset <= addr < end_offset:
                         add_node_record(block.start_stmt,
                                         start_offset,
@@ -190,6 +193,7 @@ class DebugInfo:
                         add_node_record(block.end_stmt,
                                         addr,
                                         end_offset)
+                        break
 
         self.stmts.sort(key=lambda r: r.start_offset)
 
